@@ -7,14 +7,26 @@ set -u
 cd "$(dirname "$0")/.."
 PATCH="$(readlink -f "$1")"; shift
 NAME="$(basename "$(dirname "$PATCH")")-$(basename "$PATCH" .diff)"
-WT="/tmp/fv-mut-$$-$NAME"
 TIER="${TIER:-quick}"
-git -C /repo worktree add --detach "$WT" HEAD >/dev/null 2>&1 || { echo "MUTANT $NAME: cannot create worktree"; exit 2; }
-cleanup() {
-  TAG="alt-$(echo -n "$WT" | md5sum | cut -c1-10)"
-  [ "${KEEP:-0}" = 1 ] || rm -rf ".build/$TAG" ".build/$TAG-asan" ".build/$TAG-manifest" ".build/$TAG-out" .build/build-$TAG-*.log
-  git -C /repo worktree remove --force "$WT" >/dev/null 2>&1
-}
+# SLOT=<k>: reuse one scratch worktree (/tmp/fv-slot-<k>) and its build directory for a whole
+# campaign (tools/campaign.sh removes them at the end); otherwise a fresh worktree per call.
+if [ -n "${SLOT:-}" ]; then
+  WT="/tmp/fv-slot-$SLOT"
+  if [ -d "$WT/.git" ] || [ -f "$WT/.git" ]; then
+    git -C "$WT" checkout -q -- . && git -C "$WT" clean -fdq
+  else
+    git -C /repo worktree add --detach "$WT" HEAD >/dev/null 2>&1 || { echo "MUTANT $NAME: cannot create worktree"; exit 2; }
+  fi
+  cleanup() { git -C "$WT" checkout -q -- . ; git -C "$WT" clean -fdq; TAG="alt-$(echo -n "$WT" | md5sum | cut -c1-10)"; rm -rf ".build/$TAG-out"; }
+else
+  WT="/tmp/fv-mut-$$-$NAME"
+  git -C /repo worktree add --detach "$WT" HEAD >/dev/null 2>&1 || { echo "MUTANT $NAME: cannot create worktree"; exit 2; }
+  cleanup() {
+    TAG="alt-$(echo -n "$WT" | md5sum | cut -c1-10)"
+    [ "${KEEP:-0}" = 1 ] || rm -rf ".build/$TAG" ".build/$TAG-asan" ".build/$TAG-manifest" ".build/$TAG-out" .build/build-$TAG-*.log
+    git -C /repo worktree remove --force "$WT" >/dev/null 2>&1
+  }
+fi
 trap cleanup EXIT
 if ! git -C "$WT" apply "$PATCH" 2>/tmp/fv-apply-$$.log; then
   echo "MUTANT $NAME: patch does not apply: $(head -2 /tmp/fv-apply-$$.log)"; rm -f /tmp/fv-apply-$$.log; exit 2
